@@ -321,6 +321,8 @@ def classify_event(prog, pa, idx, e):
         for t, truth in facts_before.items():
             if t[0] == "icmp" and t[1] == "eq" and t[2] == v and is_const(t[3]) and truth is False:
                 return True, "7-limit-tested-counter", ""
+            if t[0] == "icmp" and t[2] == v and is_const(t[3]) and ((t[1] in ("uge", "ugt") and truth is False) or (t[1] in ("ult", "ule") and truth is True)):
+                return True, "7-limit-tested-counter", ""
     # 4: post-check: the sum is compared ult with one of its operands right away
     if op == "add":
         for s in (("op", "add", "i64", a, b), ("op", "add", "i64", b, a)):
